@@ -63,3 +63,6 @@ def run(ctx, rep):
     from props import c03_mir, c04
     c03_mir.run(ctx, rep)
     c04.decode_length(ctx, rep)
+    # ... and the packet reader must be confined to the frame it decodes: a reader that can run into the bytes of the next
+    # buffered frame returns a packet that was never encoded (until-EOF texts, over-claimed counts)
+    c04.decode(ctx, rep)
